@@ -179,7 +179,11 @@ func (k *c05) RunCase(c *core.Ctx, i int) {
 		}
 		var files map[string][]byte
 		if kind == 1 || kind == 2 {
-			files = vj.SplitTree(vr, 4, 4)
+			if vr.Intn(4) == 0 {
+				files = vj.SplitWide(vr)
+			} else {
+				files = vj.SplitTree(vr, 4, 4)
+			}
 		} else {
 			files = map[string][]byte{"main.knut": []byte(vj.Text())}
 		}
